@@ -530,7 +530,12 @@ func (r *Message) decode(decoder Decoder) (int, error) {
 		n, err = decoder.Decode(r.bufferUnmarshal, &r.msg)
 		if errors.Is(err, message.ErrOptionsTooSmall) {
 			// increase buffer size and try again
-			r.msg.Options = make(message.Options, 0, len(r.msg.Options)*2)
+			optionsCap := len(r.msg.Options) * 2
+			if optionsCap == 0 {
+				// a message recycled without an options buffer: start from the default capacity
+				optionsCap = 16
+			}
+			r.msg.Options = make(message.Options, 0, optionsCap)
 			continue
 		}
 		return n, err
